@@ -6,6 +6,7 @@ import (
 	"fmt"
 	"io"
 	"strings"
+	"time"
 
 	"github.com/bolkedebruin/rdpgw/cmd/rdpgw/identity"
 	"github.com/bolkedebruin/rdpgw/cmd/rdpgw/protocol"
@@ -308,6 +309,86 @@ func runC08(r *Run) {
 		}
 	}
 	r.extra["process_level_segmentations"] = nSeg
+
+	// exported-API tier: the real HTTP handler with the real websocket and legacy transports
+	r.TierRan("api")
+	gws := startGateway(cfg.gateway())
+	defer gws.close()
+	refWS := runTunnelAPI("ws", gws, std, listeners, 3*time.Second)
+	refS := pktsCanon(refWS.pkts)
+	if refWS.inconclusive != "" || refS != flatOnlyS(refFlat) {
+		// the reference over the real transport must equal the hook-tier reference
+		if refWS.inconclusive != "" {
+			r.Inconclusive()
+			r.Note("api tier reference inconclusive: " + refWS.inconclusive)
+		} else {
+			r.Violation("c08-api-ref", "the standard exchange over a real websocket gives other responses than over the scripted transport",
+				fmt.Sprintf("websocket: %s\nscripted:  %s\n", refS, flatOnlyS(refFlat)))
+		}
+	}
+	type apiCase struct {
+		kind string
+		segs [][]byte
+	}
+	var apiCases []apiCase
+	bounds := []int{0}
+	for _, p := range std {
+		bounds = append(bounds, bounds[len(bounds)-1]+len(p))
+	}
+	mkCuts := func() []int {
+		var cuts []int
+		switch rng.Intn(4) {
+		case 0: // random
+			for k := 1 + rng.Intn(6); k > 0; k-- {
+				cuts = append(cuts, rng.Intn(len(stdStream)+1))
+			}
+		case 1: // a packet plus the first 1..12 bytes of the next one, then the rest
+			b := bounds[1+rng.Intn(len(bounds)-2)]
+			cuts = append(cuts, b+1+rng.Intn(12))
+			if rng.Intn(2) == 0 {
+				cuts = append(cuts, bounds[1+rng.Intn(len(bounds)-2)]+rng.Intn(8))
+			}
+		case 2: // small pieces inside headers
+			b := bounds[rng.Intn(len(bounds)-1)]
+			cuts = append(cuts, b+1+rng.Intn(7), b+8+rng.Intn(6))
+		case 3: // coalesce everything up to a boundary, cut again shortly after
+			b := bounds[1+rng.Intn(len(bounds)-2)]
+			cuts = append(cuts, b, b+1+rng.Intn(5))
+		}
+		sortInts(cuts)
+		return cuts
+	}
+	for i := r.N(120, 3000); i > 0; i-- {
+		apiCases = append(apiCases, apiCase{"ws", cutAt(stdStream, mkCuts())})
+	}
+	for i := r.N(60, 1000); i > 0; i-- {
+		apiCases = append(apiCases, apiCase{"legacy", cutAt(stdStream, mkCuts())})
+	}
+	for _, ac := range apiCases {
+		var res *apiResult
+		for attempt := 0; attempt < 3; attempt++ {
+			res = runTunnelAPI(ac.kind, gws, ac.segs, listeners, 3*time.Second)
+			if res.inconclusive == "" && (ac.kind != "legacy" || len(res.pkts) > 0) {
+				break
+			}
+		}
+		if res.inconclusive != "" {
+			r.Inconclusive()
+			continue
+		}
+		r.Count("api:" + ac.kind + hxList(ac.segs))
+		r.Dist("api:" + ac.kind)
+		got := pktsCanon(res.pkts)
+		if got != refS || !bytes.Equal(res.hostBytes, refHost) {
+			if ac.kind == "legacy" && len(res.pkts) == 0 {
+				// the IN handler's Drain() raced with our first chunk: not a verdict
+				r.Inconclusive()
+				continue
+			}
+			r.Violation("c08-api-effects", "over the real "+ac.kind+" transport the gateway's responses or the bytes relayed to the host depend on the segmentation of the client's byte stream",
+				fmt.Sprintf("transport: %s\nsegments (one message/chunk each): %s\nresponses: %s\nhost bytes: %s\nreference responses: %s\nreference host bytes: %s\n", ac.kind, hxList(ac.segs), got, hx(res.hostBytes), refS, hx(refHost)))
+		}
+	}
 	if drift > 0 && !r.HasViolation() {
 		r.Unproven(fmt.Sprintf("correspondence Model.Frame.readStream = Tunnel.Read loop broke on %d cases although the implementation is segmentation independent on everything explored; theorems of Props/C08 no longer transfer", drift), firstDrift)
 	}
@@ -345,6 +426,17 @@ func flatModel(canon string) string {
 		}
 	}
 	return strings.Join(append(ss, ds...), ",")
+}
+
+// flatOnlyS keeps the responses of a flat event list.
+func flatOnlyS(flat string) string {
+	var ss []string
+	for _, e := range strings.Split(flat, ",") {
+		if strings.HasPrefix(e, "S") {
+			ss = append(ss, e)
+		}
+	}
+	return strings.Join(ss, ",")
 }
 
 func sortInts(a []int) {
